@@ -494,6 +494,12 @@ func (t *Table) Put(input *types.PutItemInput) (map[string]*types.Item, error) {
 		}
 	}
 
+	// check the secondary index keys before anything is written,
+	// a rejected item must not be left in the table or in some of the indexes
+	if err := t.validateIndexKeys(item); err != nil {
+		return nil, types.NewError("ValidationException", err.Error(), nil)
+	}
+
 	t.setItem(key, item)
 
 	for _, index := range t.Indexes {
@@ -504,6 +510,16 @@ func (t *Table) Put(input *types.PutItemInput) (map[string]*types.Item, error) {
 	}
 
 	return item, nil
+}
+
+func (t *Table) validateIndexKeys(item map[string]*types.Item) error {
+	for _, index := range t.Indexes {
+		if _, err := index.keySchema.GetKey(t.AttributesDef, item); err != nil {
+			return err
+		}
+	}
+
+	return nil
 }
 
 func (t *Table) interpreterUpdate(input interpreter.UpdateInput) error {
@@ -557,6 +573,9 @@ func (t *Table) Update(input *types.UpdateItemInput) (map[string]*types.Item, er
 
 	oldItem := copyItem(item)
 
+	// the expression is evaluated on a copy, the stored item changes only when the whole update succeeds
+	item = copyItem(item)
+
 	err = t.interpreterUpdate(interpreter.UpdateInput{
 		TableName:  t.Name,
 		Expression: input.UpdateExpression,
@@ -566,6 +585,10 @@ func (t *Table) Update(input *types.UpdateItemInput) (map[string]*types.Item, er
 	})
 	if err != nil {
 		return nil, err
+	}
+
+	if err := t.validateIndexKeys(item); err != nil {
+		return nil, types.NewError("ValidationException", err.Error(), nil)
 	}
 
 	t.setItem(key, item)
